@@ -4,7 +4,7 @@ import z3
 from gosmt import driver as D
 from gosmt.check import Report, native_replay, run_jobs, ctx_info, _Info
 from gosmt.exec import Obligation
-from gosmt.values import Unsupported, is_term, b_and, b_not
+from gosmt.values import Unsupported, is_term, b_and, b_not, b_term
 from checks.frlib import *
 
 PROG = None
@@ -250,7 +250,86 @@ BV_JOBS = ([("VerifC15Add", {"alias": a}) for a in range(5)] + [("VerifC15Sub", 
 INT_JOBS = ([("VerifC15MulByConstant", {"c": c}) for c in (3, 5)] + [("VerifC15Mul", {"alias": a}) for a in range(5)] + [("VerifC15FromMont", {}), ("VerifC15SetUint64", {}), ("VerifC15Cmp", {})])
 
 
+def setup_havoc(ex):
+    """bit-vector run with 64x64 products replaced by unconstrained results (over-approximation): everything before the
+    final conditional subtraction is arbitrary, so the reduction tail is checked for EVERY pre-reduction value"""
+    setup_fr(ex)
+
+    def havoc_mul64(ex_, args, ins):
+        return (z3.BitVec(ex_.ctx.fresh_name("hv_hi"), 64), z3.BitVec(ex_.ctx.fresh_name("hv_lo"), 64))
+    ex.intrinsics["math/bits.Mul64"] = havoc_mul64
+
+    def cut(ex_, fr):
+        zp = ex_.store[("R", fr.id, "p:z", fr.fn["_regtype"].get("p:z"))]
+        from gosmt.values import Ptr as P_
+        # havoc at the cut point: the pre-reduction value is an arbitrary 4-limb value (sound over-approximation)
+        fresh = [z3.BitVec(ex_.ctx.fresh_name("T"), 64) for _ in range(4)]
+        for i in range(4):
+            ex_.store_to(P_(zp.obj, zp.off + i, zp.sym), fresh[i], "uint64")
+            ex_.ctx.vars["T%d" % i] = (fresh[i], 64, False)
+        ex_.ctx.pre_reduce = fresh
+    ex.ctx.cuts[FR + "._mulGeneric"] = cut
+    ex.ctx.cuts[FR + "._fromMontGeneric"] = cut
+
+
+def job_tail(h, params):
+    ctx, ex = D.execute(PROG, FR + "." + h, intmode="bv", params=params, setup=setup_havoc, harness_pkgs=[FR], globals_init=GLOBALS)
+    obs = []
+    pre = getattr(ctx, "pre_reduce", None)
+    if pre is None:
+        raise Unsupported("reduction tail not reached")
+    q = z3.BitVecVal(Q, 320)
+    T = bvval(pre)
+    Z = bvval(list(note(ctx, "z")))
+    ctx.add_fact(z3.ULT(T, 2 * q))
+    obs.append(ob("reduction tail: for every pre-reduction value T < 2r the result is T mod r (fully reduced)", Z != z3.If(z3.UGE(T, q), T - q, T)))
+    recs = D.discharge_all(ctx, extra=obs, timeout_ms=TIMEOUT_MS)
+    return {"group": "%s %s [bv, products havocked: final conditional subtraction for all T < 2r]" % (h, params), "recs": recs, "info": ctx_info(ctx), "harness": h, "params": params, "mode": "tail"}
+
+
+def setup_cmp_bv(ex):
+    setup_fr(ex)
+
+    def frommont(ex_, args, ins):
+        p = args[0]
+        from gosmt.values import Ptr as P_
+        cur = [ex_.load(P_(p.obj, p.off + i, p.sym), "uint64") for i in range(4)]
+        key = tuple(c.get_id() if is_term(c) else c for c in cur)
+        memo = ex_.ctx.__dict__.setdefault("unmont_memo", {})
+        if key in memo:
+            ls = memo[key]
+        else:
+            k = len(memo)
+            ls = [z3.BitVec("reg%s%d" % ("AB"[k] if k < 2 else str(k), i), 64) for i in range(4)]
+            ex_.ctx.add_fact(z3.ULT(z3.Concat(ls[3], ls[2], ls[1], ls[0]), z3.BitVecVal(Q, 256)))
+            for i in range(4):
+                ex_.ctx.vars["reg%s%d" % ("AB"[k] if k < 2 else str(k), i)] = (ls[i], 64, False)
+            memo[key] = ls
+        for i in range(4):
+            ex_.store_to(P_(p.obj, p.off + i, p.sym), ls[i], "uint64")
+        return ()
+    ex.intrinsics[FR + ".fromMont"] = frommont
+
+
+def job_cmp_bv():
+    h = "VerifC15Cmp"
+    ctx, ex = D.execute(PROG, FR + "." + h, intmode="bv", params={}, setup=setup_cmp_bv, harness_pkgs=[FR], globals_init=GLOBALS)
+    xr, yr = list(note(ctx, "xr")), list(note(ctx, "yr"))
+    XR, YR = bvval(xr), bvval(yr)
+    c = note(ctx, "cmp")
+    obs = [ob("Cmp = +1 when x > y (regular values, bit-vector run with FromMont as an arbitrary reduced value)", z3.And(z3.UGT(XR, YR), c != 1)),
+           ob("Cmp = -1 when x < y", z3.And(z3.ULT(XR, YR), c != z3.BitVecVal(-1, 64))),
+           ob("Cmp = 0 when x = y", z3.And(XR == YR, c != 0)),
+           ob("LexicographicallyLargest iff regular value > (r-1)/2", b_term(note(ctx, "lexl")) != z3.UGT(XR, z3.BitVecVal((Q - 1) // 2, 320)))]
+    recs = D.discharge_all(ctx, extra=obs, timeout_ms=TIMEOUT_MS)
+    return {"group": "Cmp / LexicographicallyLargest [bv, FromMont havocked to an arbitrary reduced value]", "recs": recs, "info": ctx_info(ctx), "harness": h, "params": {}, "mode": "cmpbv"}
+
+
 def job(h, params, mode):
+    if mode == "tail":
+        return job_tail(h, params)
+    if mode == "cmpbv":
+        return job_cmp_bv()
     ctx, ex = D.execute(PROG, FR + "." + h, intmode=mode, params=params, setup=setup_fr, harness_pkgs=[FR], globals_init=GLOBALS)
     obs = (spec_bv if mode == "bv" else spec_int)(h, ctx, params)
     ctx.reach_hint = {"x0": 1, "x1": 2, "x2": 3, "x3": 4, "y0": 5, "y1": 6, "y2": 7, "y3": 8, "v": 77, "i": 3}
@@ -283,6 +362,45 @@ def job(h, params, mode):
 
 
 def make_replay(h, params, mode):
+    if mode in ("tail", "cmpbv"):
+        def cb2(rec):
+            # over-approximated runs (havoc): the model fixes an intermediate value (pre-reduction T / regular values), the
+            # matching inputs of the real function are reconstructed and tried natively
+            import random
+            m = rec.get("model") or {}
+            rng = random.Random(1)
+            Rm = (1 << 256) % Q
+            last = (False, None)
+            if mode == "cmpbv":
+                a = sum(int(m.get("regA%d" % i, 0)) << (64 * i) for i in range(4)) * Rm % Q
+                b = sum(int(m.get("regB%d" % i, 0)) << (64 * i) for i in range(4)) * Rm % Q
+                cands = [(a, b)]
+            else:
+                T = sum(int(m.get("T%d" % i, 0)) << (64 * i) for i in range(4))
+                cands = []
+                for k in range(10):
+                    if h == "VerifC15FromMont":
+                        cands.append(((T * Rm + k * 0) % Q, 0))
+                        break
+                    x = rng.randrange(1, Q)
+                    y = T * Rm % Q * pow(x, -1, Q) % Q
+                    cands.append((x, y))
+            for (x, y) in cands:
+                vals = {"x%d" % i: (x >> (64 * i)) & (W - 1) for i in range(4)}
+                vals.update({"y%d" % i: (y >> (64 * i)) & (W - 1) for i in range(4)})
+                res = native_replay(BUILD, FR, FR + "." + h, params, vals, tag="%s_tail" % h)
+                if not res["built"]:
+                    return None, res["path"]
+                try:
+                    bad = judge_int(h, params, vals, res["notes"])
+                except Exception:
+                    bad = None
+                last = (bool(bad) or bool(res["panics"]), res["path"])
+                if last[0]:
+                    return last
+            return last
+        return cb2
+
     def cb(rec):
         res = native_replay(BUILD, FR, FR + "." + h, params, rec.get("model") or {}, tag="%s_%s" % (h, "_".join("%s%s" % kv for kv in params.items())))
         if not res["built"]:
@@ -328,6 +446,7 @@ def run(tier, seed):
         jobs += [(h, p, "bv") for h, p in BV_JOBS]
     else:
         jobs += [(h, p, "bv") for h, p in BV_JOBS if h in ("VerifC15Add", "VerifC15Neg", "VerifC15Double", "VerifC15Reduce", "VerifC15Bits", "VerifC15MulByConstant")]
+    jobs += [("VerifC15Mul", {"alias": a}, "tail") for a in range(5)] + [("VerifC15FromMont", {}, "tail"), ("VerifC15Cmp", {}, "cmpbv")]
     jobs.sort(key=lambda j: 0 if j[2] == "int" else 1)
 
     def on_result(a, item):
